@@ -462,6 +462,48 @@ def rule_no_shared_write(ctx: Ctx) -> None:
     ctx.floor("8-no-shared-write", n, 1)
 
 
+def rule_reads_are_stateless(ctx: Ctx) -> None:
+    """The storage objects of a map are shared by every element task (a thread pool runs all tasks on the very same object).
+    Their READ methods must not keep per-call state on `self`: an attribute written from a value that depends on the call's
+    arguments (a "last key / last value" memo) is seen by the other threads between its write and its use - one particular
+    interleaving hands a task another index's element.  Lazily initialised state that does not depend on the arguments
+    (idempotent) is not reported, nor are writes made under a `with <lock>`."""
+    from ..flow import dependence_text
+
+    P = ctx.prog
+    READS = ("__getitem__", "get_from_index", "has_index", "to_array", "mask", "mask_linear", "_internal_mask", "__len__", "_slice_indices", "_key_to_file", "_index_to_file", "_files")
+    base_q = "pipefunc.map._storage_array._base.StorageBase"
+    n = 0
+    for cls in P.classes.values():
+        if base_q not in [c.qualname for c in P.mro(cls.qualname)] or cls.module.name.endswith("_zarr"):
+            continue
+        for mname, fn in cls.methods.items():
+            if mname not in READS:
+                continue
+            n += 1
+            params = [p_ for p_ in fn.param_names() if p_ != "self"]
+            par = {id(c): p_ for p_ in ast.walk(fn.node) for c in ast.iter_child_nodes(p_)}
+            bad = []
+            for a in walk_no_nested(fn.node):
+                tg = a.targets if isinstance(a, ast.Assign) else ([a.target] if isinstance(a, (ast.AugAssign, ast.AnnAssign)) else [])
+                for t in tg:
+                    if not (isinstance(t, ast.Attribute) and isinstance(t.value, ast.Name) and t.value.id == "self"):
+                        continue
+                    x: ast.AST = a
+                    locked = False
+                    while id(x) in par:
+                        x = par[id(x)]
+                        if isinstance(x, ast.With) and any("lock" in norm(i.context_expr).lower() for i in x.items):
+                            locked = True
+                    dep = dependence_text(fn.node, a.value) if getattr(a, "value", None) is not None else ""
+                    if not locked and any(re.search(rf"\b{re.escape(p_)}\b", dep) for p_ in params):
+                        bad.append(a)
+            ctx.add("8-no-shared-write", fn, bad[0] if bad else fn.node, not bad, f"{cls.name}.{mname} keeps no per-call state on the shared object" if not bad else
+                    f"`{norm(bad[0])[:60]}` in {cls.name}.{mname} stores something that depends on this call's arguments on the storage object, which all element tasks of a thread pool share: between this write and its use "
+                    "another task can replace it - a task then receives the element of another index (sequential and process-pool runs stay correct, so results depend on the executor and the schedule)", key=f"stateless {cls.name}.{mname}")
+    ctx.floor("8-no-shared-write.read-methods", n, 8)
+
+
 PROCESS_STATE_EXEMPT = {
     "pipefunc._utils._cached_load": "only reached through load(..., cache=True); C04.1 fresh-load forbids that for every result/inputs load",
 }
@@ -508,7 +550,7 @@ def rule_no_process_memo(ctx: Ctx) -> None:
 
 
 def check(ctx: Ctx) -> None:
-    for rule in (rule_mirror, rule_barrier, rule_placement, rule_one_dump, rule_shared, rule_executor, rule_picklable_state, rule_no_shared_write, rule_no_process_memo):
+    for rule in (rule_mirror, rule_barrier, rule_placement, rule_one_dump, rule_shared, rule_executor, rule_picklable_state, rule_no_shared_write, rule_reads_are_stateless, rule_no_process_memo):
         ctx.run(rule)
 
 
